@@ -241,11 +241,11 @@ CHECKS["C17"] = {
     "engine": "HIST (statement histories on the real Nexus, differential dump oracle) + STEP (reader || writer over a gated store)",
     "technique": "explicit enumeration of KML statement histories executed through the real parser and executor with a full-observable-state differential oracle; exhaustive preemption-bounded interleaving enumeration of one writer against one reader at store-call granularity",
     "design_ref": "DESIGN.md 5/C17",
-    "text": "hist: all sequences to depth 2 (quick) / 3 (thorough, as far as the budget allows) of 36 statement templates x {commit, options.dry_run, PREVIEW KML} from an empty and a seeded space: single and multi-clause blocks with forward references, UPSERT/ENSURE hit and miss, failing EXPECT guards, a failing clause first/middle/last, the same tuple ENSUREd twice, the same key created or upserted twice, dangling references, unauthorized principals, parser refusals, lifecycle statements. The DUMP is everything a query, meta command or historical read can observe: KQL over every kind and state incl. pending, counts, beliefs and slots pinned FOR TIME, DESCRIBE/LIST/HISTORY/CHANGES/SNAPSHOT/SEARCH, transaction and element probes, AS OF reads at every journalled sequence (only the space sequence counter masked). Refused / dry / previewed => dump before == dump after; committed => one fresh sequence, one journal row, every changed element's version +1 exactly once, unchanged elements keep theirs; one element per tuple and one concept per (type,key) after every step. step: a multi-row writer (three commits, a dry run, PREVIEW, a statement refused at commit) against a reader issuing 12 read commands, every schedule with <= 1 preemption (thorough 3): each read sees the before- or the after-answer and never goes back.",
+    "text": "hist: all sequences to depth 2 (quick) / 3 (thorough, as far as the budget allows) of 36 statement templates x {commit, options.dry_run, PREVIEW KML} from an empty and a seeded space: single and multi-clause blocks with forward references, UPSERT/ENSURE hit and miss, failing EXPECT guards, a failing clause first/middle/last, the same tuple ENSUREd twice, the same key created or upserted twice, dangling references, unauthorized principals, parser refusals, lifecycle statements. The DUMP is everything a query, meta command or historical read can observe: KQL over every kind and state incl. pending, counts, beliefs and slots pinned FOR TIME, DESCRIBE/LIST/HISTORY/CHANGES/SNAPSHOT/SEARCH, transaction and element probes, AS OF reads at every journalled sequence (only the space sequence counter masked). Refused / dry / previewed => dump before == dump after; committed => one fresh sequence, one journal row, every changed element's version +1 exactly once, unchanged elements keep theirs; one element per tuple and one concept per (type,key) after every step. step: a multi-row writer (three commits, a dry run, PREVIEW, a statement refused at commit) against a reader issuing 12 read commands, every schedule with <= 1 preemption (thorough 3): each read sees the before- or the after-answer and never goes back. step additionally: 14 single-command probe scenarios (two multi-kind commits - Concept + Evidence + Activity in one MUTATE, five new rows - each crossed with DESCRIBE PRIMER, SEARCH CONCEPT, SEARCH COGNITION, HISTORY SPACE, CHANGES and two KQL controls): every observation of the probe must equal its before-commit or after-commit answer in every schedule.",
     "note": "The dump is the observable surface; the governance audit (host API only) is outside it. PURGE only as a refused statement; capsule import, retention side effects and idempotency keys are not covered. Five defects found and repaired (see known_findings.json fixed).",
     "parts": [
         {"part": "hist", "crate": "vnexus", "bin": "c17_hist", "budget_quick": 40, "budget_thorough": 900},
-        {"part": "step", "crate": "vnexus", "bin": "c17_step", "budget_quick": 12, "budget_thorough": 300},
+        {"part": "step", "crate": "vnexus", "bin": "c17_step", "budget_quick": 25, "budget_thorough": 300},
     ],
 }
 
@@ -254,7 +254,7 @@ CHECKS["C18"] = {
     "engine": "HIST (committed histories on the real Nexus; live recording vs AS OF replay)",
     "technique": "explicit enumeration of committed statement histories; a query battery recorded live at every sequence number and replayed AS OF SEQ / TX / TIME after every later statement, compared field for field",
     "design_ref": "DESIGN.md 5/C18",
-    "text": "Committed histories from a seeded space over 13 step kinds (create, rename, facet decay, structural relink, archive, tombstone, retract, supersede, merge, functional assert, reject, schema-activation toggle, creation under the new schema): quick = depth 2 over the whole alphabet + depth 3 over 6 mutation-kind representatives (356 histories), thorough = depth 3 complete, depth 4 as far as the budget allows. After every commit a 38-query battery (element, tuple, structural, path, belief and slot patterns pinned FOR TIME, filters, aggregates) plus 2 META reads is recorded live; after the last statement every recording is replayed AS OF SEQ (whole battery) and AS OF TX / AS OF TIME (whole-kind queries + META) and must equal the recording; assertion and evidence payloads are compared across all version rows.",
+    "text": "Committed histories from a seeded space over 13 step kinds (create, rename, facet decay, structural relink, archive, tombstone, retract, supersede, merge, functional assert, reject, schema-activation toggle, creation under the new schema): quick = depth 2 over the whole alphabet + depth 3 over 6 mutation-kind representatives (356 histories), thorough = depth 3 complete, depth 4 as far as the budget allows. After every commit a 38-query battery (element, tuple, structural, path, belief and slot patterns pinned FOR TIME, filters, aggregates) plus 2 META reads is recorded live; after the last statement every recording is replayed AS OF SEQ (whole battery) and AS OF TX / AS OF TIME (whole-kind queries + META) and must equal the recording; assertion and evidence payloads are compared across all version rows. The battery is also replayed bound only through read.snapshot_token (a SNAPSHOT is taken at every point) and every comparison includes the response context's schema_environment_version; it contains hop-quantified path walks in every anchoring (forward chain, backward from a bound object, backward from a fixed object, both ends, unpinned {2}, COUNT over a backward walk) over a rel chain, and STRUCTURAL patterns with pinned source, pinned target, bound source and COUNT over two structural sources; the later-history alphabet archives and merges those sources and archives/extends the chain. Answers that differ only in order are their own violation class (as-of-differs-in-order).",
     "note": "Commit timestamps are wall-clock milliseconds: in quick the AS OF TIME replay is done only where unambiguous. Historical SEARCH is unsupported by the engine. Two defects found and repaired.",
     "parts": [
         {"part": "hist", "crate": "vnexus", "bin": "c18_hist", "budget_quick": 40, "budget_thorough": 900},
@@ -279,10 +279,10 @@ CHECKS["C20"] = {
     "engine": "SCOPE (assertion multisets x every recording order through the real executor) + independent BeliefModel",
     "technique": "bounded-exhaustive enumeration of assertion multisets and of every recording order / interleaving of ASSERT, RETRACT and SUPERSEDE through the real executor, compared with a connected-components reference model and across orders; eligibility enumerated separately (it is decided per row)",
     "design_ref": "DESIGN.md 5/C20",
-    "text": "grouping: multisets of assertions over 3 actors x 8 evidence subsets x 3 stances x confidence {unstated, .3, .6, .9, 0.0, 1.0} on a plain and on a functional predicate with one rival value, EVERY recording order of each multiset: n <= 1 all 864 letters under three threshold sets; n = 2 one structure pair per actor/evidence renaming class x all stance and confidence pairs (thorough: all multisets); n = 3 146 renaming classes x stance patterns, all 6 orders (thorough: all 2,600 structure multisets x 27 stance patterns); n = 4 160 classes x all 24 orders (thorough: all 17,550 multisets x 24 orders); thorough n = 5 98,280 multisets in two orders. Each history is checked against the model (union-find over actors and evidence ids, per-group max confidence, score 1 - prod(1 - max_c) in exact arithmetic, exact thresholds), across orders, across the four ways of asking (BELIEF (?p), triple, id:, BELIEF SLOT) and by re-projection after unrelated writes; the laws 'repetition never adds a group / never raises a score unless more confident' and 'scores monotone in a group maximum' are checked between every pair of run multisets differing by one element or one confidence. eligibility: 4 lifecycles x 6 modes x 7 validity windows (both boundaries) x 3 stances on plain / functional own value / functional rival value, alone and next to each of 9 witness assertions in every statement interleaving, projected at 3 evaluation times x 6 policies: ineligible rows count for nothing and are listed as excluded; no eligible assertion => insufficient, never rejected; the answer names its policy.",
+    "text": "grouping: multisets of assertions over 3 actors x 8 evidence subsets x 3 stances x confidence {unstated, .3, .6, .9, 0.0, 1.0} on a plain and on a functional predicate with one rival value, EVERY recording order of each multiset: n <= 1 all 864 letters under three threshold sets; n = 2 one structure pair per actor/evidence renaming class x all stance and confidence pairs (thorough: all multisets); n = 3 146 renaming classes x stance patterns, all 6 orders (thorough: all 2,600 structure multisets x 27 stance patterns); n = 4 160 classes x all 24 orders (thorough: all 17,550 multisets x 24 orders); thorough n = 5 98,280 multisets in two orders. Each history is checked against the model (union-find over actors and evidence ids, per-group max confidence, score 1 - prod(1 - max_c) in exact arithmetic, exact thresholds), across orders, across the four ways of asking (BELIEF (?p), triple, id:, BELIEF SLOT) and by re-projection after unrelated writes; the laws 'repetition never adds a group / never raises a score unless more confident' and 'scores monotone in a group maximum' are checked between every pair of run multisets differing by one element or one confidence. eligibility: 4 lifecycles x 6 modes x 7 validity windows (both boundaries) x 3 stances on plain / functional own value / functional rival value, alone and next to each of 9 witness assertions in every statement interleaving, projected at 3 evaluation times x 6 policies: ineligible rows count for nothing and are listed as excluded; no eligible assertion => insufficient, never rejected; the answer names its policy. Read-coordinate dimension: the same recorded histories are projected at now and at the snapshot taken right after they were recorded, bound both by AS OF SEQ and by read.snapshot_token, both while that snapshot is still the head and after later writes about unrelated subjects made it a past coordinate; nothing about the projected subjects is written after the snapshot, so BeliefModel's answer is identical at every coordinate, and the historical reads are additionally compared with the read at now; batches of 8 subjects share the functional predicate so a conflict set leaking across subjects shows as foreign assertion ids or as rejected where the model says insufficient.",
     "note": "Quick n >= 2 (and all functional n >= 3 stages) use one representative per actor/evidence renaming class, sound if actors and evidence ids matter only through equality (the thorough plain stages run all multisets). Single space, one rival value, no AS OF, no archived/tombstoned rows. The quantifier's 'randomized beyond' part is sampling and is not built. One recorded finding (a fully grounded BELIEF over a never-stored proposition returns zero rows, not insufficient).",
     "parts": [
         {"part": "grouping", "crate": "vbelief", "bin": "c20_grouping", "budget_quick": 30, "budget_thorough": 1080},
-        {"part": "eligibility", "crate": "vbelief", "bin": "c20_eligibility", "budget_quick": 12, "budget_thorough": 420},
+        {"part": "eligibility", "crate": "vbelief", "bin": "c20_eligibility", "budget_quick": 22, "budget_thorough": 420},
     ],
 }
